@@ -88,9 +88,9 @@ def run(tier):
         if not out["bad"]:
             raise MachineryError("rotation closed form disagrees with records TLC accepted")
     n = 200 if th else 40
-    for i in range(n):
-        name = rng.choice(["Rx", "Ry", "Rz", "P"])
-        th_ = rng.uniform(-2 * math.pi, 4 * math.pi)
+    special = [0.0, 1e-9, -1e-9, 2 * math.pi, -2 * math.pi, 4 * math.pi, math.pi, -math.pi, 3, -1, 1e-4, 2 * math.pi - 1e-9, 100.5, np.float64(0.75), np.int64(2)]
+    angles = [(nm, a_) for a_ in special for nm in ("Rx", "Ry", "Rz", "P")] + [(rng.choice(["Rx", "Ry", "Rz", "P"]), rng.uniform(-2 * math.pi, 4 * math.pi)) for _ in range(n)]
+    for name, th_ in angles:
         G, leak = ga.characterise(getattr(q, name)(th_), [(0, 1)], False)
         chk.count(key="%s(%r)" % (name, th_))
         if not ga.equal_up_to_phase(G, ga.rot(name, th_)):
